@@ -147,6 +147,28 @@ pub fn build_pool(seed: u64, n: usize, tag: &str) -> Result<Pool, String> {
             r.index = (r.index + 7919) % CAP;
         }
     }
+    // the first pool message ends in zero bytes wherever an encoding can: its nullifier (the last of
+    // the five public values) has a zero most significant byte — the external nullifier is advanced
+    // until the reference formulas say so, about 48 steps — and its signal ends with three zero bytes.
+    // The checks that enumerate every truncation of that message thereby also cut exactly the zero
+    // bytes off a value / off the signal (an input a zero-extending reader would complete again).
+    if let Some(r) = reqs.first_mut() {
+        let one = BigUint::from(1u32);
+        let mut e = r.e.big();
+        for _ in 0..4000 {
+            let a1 = crate::models::poseidon_ref::poseidon(&[r.s.big(), e.clone(), r.mid.big()]);
+            let nf = crate::models::poseidon_ref::poseidon(&[a1]);
+            if nf.bits() <= 248 {
+                break;
+            }
+            e = (e + &one) % crate::models::field::p();
+        }
+        r.e = crate::models::field::Fx::from_big(&e);
+        let mut sg = r.signal.expand();
+        sg.truncate(900);
+        sg.extend([0x5a, 0, 0, 0]);
+        r.signal = Bytes::Lit(sg);
+    }
     let mut rln = new_rln(DEPTH);
     let mut model = TreeModel::new(DEPTH, Fr::from(0u64));
     for r in &reqs {
